@@ -21,6 +21,7 @@ struct Stats {
     incomplete_sets: AtomicU64,
     oracle_evals: AtomicU64,
     flood_sets: AtomicU64,
+    row_floods: AtomicU64,
 }
 
 /// what the set of distinct packets received so far determines, per block (monotone)
@@ -447,6 +448,68 @@ fn run_flood_set(ctx: &Ctx, gf: &Gf, seed: u64, idx: u64, st: &Stats) {
     st.flood_sets.fetch_add(1, Relaxed);
 }
 
+/// Row flood at block level: a block decoder that has already answered keeps receiving repair symbols
+/// until it holds more than 2^16 of them (in a few large calls); every later return must be the identical
+/// bytes, and a fresh decoder given everything in one call must agree.
+fn run_row_flood(ctx: &Ctx, seed: u64, idx: u64, st: &Stats) {
+    let mut rng = Rng::derive(seed, 0x080a, idx);
+    let K = *rng.pick(&[5usize, 10, 11, 13, 26, 55]);
+    let T = *rng.pick(&[1usize, 2, 4]);
+    let data = rng.bytes(K * T);
+    let threshold = *rng.pick(&[0u32, 250, u32::MAX]);
+    let total = 65_536 - 40 + rng.below(120) as usize;
+    let replay = J::obj(vec![("flood", J::i(2)), ("seed", J::i(seed)), ("idx", J::i(idx)), ("K", J::i(K)), ("T", J::i(T)), ("symbols", J::i(total)), ("sparse_threshold", J::i(threshold))]);
+    let sig = |what: &str| format!("C08 row-flood {what} seed={seed} idx={idx}");
+    let r = guarded(|| {
+        let cfg = raptorq::ObjectTransmissionInformation::new((K * T) as u64, T as u16, 1, 1, 1);
+        let enc = raptorq::SourceBlockEncoder::new(0, &cfg, &data);
+        let lost = rng.range(1, (K as u64).min(3)) as usize;
+        let mut first: Vec<EncodingPacket> = enc.source_packets().into_iter().skip(lost).collect();
+        first.extend(enc.repair_packets(0, lost as u32 + 3));
+        let rest = enc.repair_packets(lost as u32 + 3, (total - first.len()) as u32);
+        let mk = || {
+            let mut d = SourceBlockDecoder::new(0, &cfg, (K * T) as u64);
+            d.verif_set_sparse_threshold(threshold);
+            d
+        };
+        let mut d = mk();
+        let mut answers = vec![d.decode(first.clone())];
+        let nchunks = rng.range(1, 4) as usize;
+        let per = rest.len().div_ceil(nchunks);
+        for c in rest.chunks(per) {
+            answers.push(d.decode(c.to_vec()));
+        }
+        let one_shot = mk().decode(first.into_iter().chain(rest.into_iter()));
+        (answers, one_shot)
+    });
+    st.calls.fetch_add(1, Relaxed);
+    match r {
+        Err(m) => ctx.violation(sig("panic"), format!("K={K}: a block decoder that keeps receiving repair symbols up to {total} in total panicked: {}", short(&m, 140)), replay),
+        Ok((answers, one_shot)) => {
+            let firsts = answers.iter().position(|a| a.is_some());
+            if let Some(f) = firsts {
+                for (i, a) in answers.iter().enumerate().skip(f) {
+                    match a {
+                        Some(v) if *v == data => {}
+                        Some(_) => {
+                            ctx.violation(sig("unstable"), format!("K={K}, T={T}: the block decoder answered after call {f}; after call {i} (more repair symbols, {total} in total at the end) it returns different, wrong bytes"), replay.clone());
+                            return;
+                        }
+                        None => {
+                            ctx.violation(sig("answer-withdrawn"), format!("K={K}: the block decoder answered after call {f} but answers None after call {i}"), replay.clone());
+                            return;
+                        }
+                    }
+                }
+            }
+            if one_shot.is_some() != answers.last().unwrap().is_some() || one_shot.as_ref().map(|v| *v != data).unwrap_or(false) {
+                ctx.violation(sig("one-shot"), format!("K={K}: {total} symbols in one call give {:?} (length), delivered in {} calls the last answer is {:?}; the object has {} bytes", one_shot.as_ref().map(|v| v.len()), answers.len(), answers.last().unwrap().as_ref().map(|v| v.len()), data.len()), replay);
+            }
+        }
+    }
+    st.row_floods.fetch_add(1, Relaxed);
+}
+
 pub fn run(ctx: &Ctx) -> i32 {
     let gf = Gf::new();
     let st = Stats::default();
@@ -454,7 +517,9 @@ pub fn run(ctx: &Ctx) -> i32 {
         let j = parse_json(&std::fs::read_to_string(p).expect("replay file")).expect("json");
         let c = j.get("case").unwrap();
         ctx.eval(1);
-        if c.get("flood").and_then(|f| f.as_u64()) == Some(1) {
+        if c.get("flood").and_then(|f| f.as_u64()) == Some(2) {
+            run_row_flood(ctx, c.u("seed"), c.u("idx"), &st);
+        } else if c.get("flood").and_then(|f| f.as_u64()) == Some(1) {
             run_flood_set(ctx, &gf, c.u("seed"), c.u("idx"), &st);
         } else {
             run_set(ctx, &gf, c.u("seed"), c.u("idx"), &st);
@@ -486,6 +551,16 @@ pub fn run(ctx: &Ctx) -> i32 {
             }
         });
     }
+    if ctx.args.ex("n").is_none() {
+        par_for(ctx.args.pick(12, 200), |i| {
+            if !ctx.too_many_violations() {
+                crashlog::note(crashlog::CASE, &[ctx.seed(), i as u64, 2]);
+                run_row_flood(ctx, ctx.seed(), i as u64, &st);
+                ctx.eval(1);
+            }
+        });
+    }
+    ctx.cov("row_floods_(block_decoder_fed_on_to_about_2^16_symbols_after_it_answered)", J::i(st.row_floods.load(Relaxed)));
     ctx.cov("flood_sets_(more_than_L_dependent_repair_symbols_before_/_after_the_completing_ones)", J::i(st.flood_sets.load(Relaxed)));
     ctx.cov("histories_run", J::i(st.histories.load(Relaxed)));
     ctx.cov("decoder_calls_monitored_x3_observers", J::i(st.calls.load(Relaxed)));
